@@ -7,6 +7,17 @@ model's (no tolerance).  What the model takes as an input (L = int(f*n), a float
 product) is checked exactly on the Python side, as is "the caller's array is not
 modified".  If the correspondence breaks, the property itself is evaluated on
 the implementation by brute force to look for a failing input.
+
+Storage formats (round 4): a second family of cases hands sample_hdi the SAME kind
+of samples as blocks of memory with a NumPy descriptor -- every integer width
+(int8..int64, uint8..uint64) and float width (float16/32/64, longdouble), little and
+big endian, C / Fortran / strided / reversed (negative stride) / 0-stride broadcast /
+unaligned / read-only layouts and an ndarray subclass.  For these the raw buffer,
+offset, strides and dtype go to Coq, where Model/HdiStorage.v decodes the items from
+the bytes (two's complement, IEEE-754 via Flocq) and runs the model with the widths in
+the machine arithmetic the code uses after its widening step; theorems in
+Properties/C13Storage.v (decode/encode round trip, widening => no wrap => ideal model,
+independence of the storage format, refutation of native-width arithmetic).
 """
 from __future__ import annotations
 
@@ -22,8 +33,18 @@ PROP = "C13"
 THEOREMS = ["C13_endpoints_in_sample", "C13_coverage", "C13_fraction", "C13_optimal",
             "C13_fallback", "C13_permutation", "C13_affine", "C13_columns"]
 
+STORAGE_THEOREMS = ["C13_storage_roundtrip", "C13_storage_unaddressed", "C13_machine_exact",
+                    "C13_pinned_exact_below_2p63", "C13_pinned_int64_span_refuted",
+                    "C13_storage_values", "C13_storage_independent", "C13_native_arithmetic_refuted"]
+
 HEADER = """From Coq Require Import List ZArith.
 From IT Require Import Model.Hdi.
+Import ListNotations.
+Open Scope Z_scope.
+"""
+
+HEADER_STORAGE = """From Coq Require Import List ZArith.
+From IT Require Import Model.Hdi Model.HdiStorage.
 Import ListNotations.
 Open Scope Z_scope.
 """
@@ -90,8 +111,10 @@ def gen_fraction(r, n):
     return f
 
 
-def make_input(cols, container, dtype):
+def make_input(cols, container, dtype, storage=None):
     """Build what is handed to sample_hdi: 1-D if one column, else 2-D (m, n_cols)."""
+    if storage is not None:
+        return build_storage(cols, storage)["array"]
     n = len(cols[0])
     if dtype != "float":
         conv = int
@@ -137,12 +160,262 @@ def gen_case(r, tier):
             "container": container}
 
 
+
+# ---------------------------------------------------------------- storage formats
+class Tagged(np.ndarray):
+    """a plain ndarray subclass (np.matrix and masked arrays are not samples sample_hdi accepts)"""
+
+
+INT_CODES = ["i1", "i2", "i4", "i8", "u1", "u2", "u4", "u8"]
+FLOAT_CODES = ["f2", "f4", "f8", "g"]
+# significand bits available for the values of a float sample: the values are m * 2^e with
+# |m| < 2^(p-1), so every pairwise difference is representable and the code's subtraction is exact
+FLOAT_BITS = {"f2": 11, "f4": 24, "f8": 53, "g": 53}
+FLOAT_EXP = {"f2": (-4, 4), "f4": (-20, 20), "f8": (-30, 30), "g": (-30, 30)}
+LAYOUTS = ["C", "F", "strided", "reversed", "broadcast", "readonly", "unaligned", "subclass"]
+
+
+def storage_dtype(code, order):
+    dt = np.dtype(code)
+    return dt.newbyteorder(order) if dt.itemsize > 1 else dt
+
+
+def storage_combos():
+    out = []
+    for code in INT_CODES + FLOAT_CODES:
+        for order in ("<", ">") if np.dtype(code).itemsize > 1 else ("|",):
+            for lay in LAYOUTS:
+                out.append((code, order, lay))
+    return out
+
+
+def int_range(code):
+    """values used for an integer dtype: its whole range; for the 64-bit types +-2^53, so that the
+    float64 result array holds the end points exactly (gen_storage_column also draws 64-bit samples
+    from the whole range on a coarser grid)"""
+    ii = np.iinfo(code)
+    return max(int(ii.min), -(2 ** 53)), min(int(ii.max), 2 ** 53)
+
+
+def gen_storage_column(r, n, code, kind):
+    if code in ("i8", "u8") and kind in ("fullrange", "two_ends", "cluster_ends") and r.random() < 0.6:
+        # the whole range of the 64-bit types, on the grid of multiples of 2^11 (every such value is a
+        # float64, so the float64 result array holds the end points exactly); an int64 sample may
+        # span 2^63 or more here
+        ii = np.iinfo(code)
+        glo, ghi = -(-int(ii.min) >> 11), int(ii.max) >> 11
+        gspan = ghi - glo
+        if kind == "fullrange":
+            g = [r.randint(glo, ghi) for _ in range(n)]
+        elif kind == "two_ends":
+            g = [r.choice([r.randint(glo, glo + gspan // 16), r.randint(ghi - gspan // 16, ghi)]) for _ in range(n)]
+        else:
+            c = r.randint(glo, ghi)
+            w = r.choice([3, 40, gspan // 1000])
+            k = r.randint(max(1, n // 4), max(1, (2 * n) // 3))
+            g = [min(ghi, max(glo, c + r.randint(-w, w))) for _ in range(k)]
+            while len(g) < n:
+                g.append(r.choice([r.randint(glo, glo + gspan // 8), r.randint(ghi - gspan // 8, ghi)]))
+            r.shuffle(g)
+        return [Fraction(v << 11) for v in g]
+    if code in INT_CODES:
+        lo, hi = int_range(code)
+        span = hi - lo
+        if kind == "fullrange":
+            return [Fraction(r.randint(lo, hi)) for _ in range(n)]
+        if kind == "cluster_ends":     # a tight group somewhere, the rest towards both ends of the range
+            c = r.randint(lo, hi)
+            w = r.choice([3, 40, max(3, span // 1000)])
+            k = r.randint(max(1, n // 4), max(1, (2 * n) // 3))
+            xs = [Fraction(min(hi, max(lo, c + r.randint(-w, w)))) for _ in range(k)]
+            while len(xs) < n:
+                xs.append(Fraction(r.choice([r.randint(lo, lo + span // 8), r.randint(hi - span // 8, hi)])))
+            r.shuffle(xs)
+            return xs
+        if kind == "two_ends":
+            return [Fraction(r.choice([r.randint(lo, lo + span // 16), r.randint(hi - span // 16, hi)]))
+                    for _ in range(n)]
+        if kind == "ties":
+            vals = [Fraction(r.randint(lo, hi)) for _ in range(r.randint(1, max(1, n // 2)))]
+            return [r.choice(vals) for _ in range(n)]
+        if kind == "small":
+            return [Fraction(r.randint(max(lo, -100), min(hi, 100))) for _ in range(n)]
+        raise ValueError(kind)
+    p = FLOAT_BITS[code]
+    e = r.randint(*FLOAT_EXP[code])
+    mb = min(p - 1, 40)
+    top = (1 << mb) - 1
+    sc = Fraction(2) ** e
+    if kind == "cluster_ends":
+        c = r.randint(-top, top)
+        k = r.randint(max(1, n // 4), max(1, (2 * n) // 3))
+        xs = [Fraction(min(top, max(-top, c + r.randint(-5, 5)))) * sc for _ in range(k)]
+        while len(xs) < n:
+            xs.append(Fraction(r.choice([r.randint(-top, -top + top // 8), r.randint(top - top // 8, top)])) * sc)
+        r.shuffle(xs)
+        return xs
+    if kind == "ties":
+        vals = [Fraction(r.randint(-top, top)) * sc for _ in range(r.randint(1, max(1, n // 2)))]
+        return [r.choice(vals) for _ in range(n)]
+    if kind == "small":
+        return [Fraction(r.randint(-100, 100)) * sc for _ in range(n)]
+    return [Fraction(r.randint(-top, top)) * sc for _ in range(n)]      # fullrange / two_ends
+
+
+STORAGE_KINDS = ["fullrange", "fullrange", "cluster_ends", "cluster_ends", "cluster_ends", "two_ends",
+                 "ties", "small"]
+
+
+def gen_storage_case(r, tier, combo):
+    code, order, layout = combo
+    u = r.random()
+    if u < 0.6:
+        n = r.randint(2, 12)
+    elif u < 0.93:
+        n = r.randint(13, 40)
+    else:
+        n = r.randint(41, 150 if tier == "thorough" else 90)
+    ncols = r.randint(2, 4) if (layout == "F" or r.random() < (0.85 if layout == "broadcast" else 0.4)) else 1
+    bvariant = None
+    kinds = [r.choice(STORAGE_KINDS) for _ in range(ncols)]
+    cols = [gen_storage_column(r, n, code, k) for k in kinds]
+    if layout == "broadcast":
+        if ncols == 1:
+            bvariant = "const1d"            # np.broadcast_to(scalar, (n,)): one item, stride 0
+            cols = [[cols[0][0]] * n]
+        elif r.random() < 0.75:
+            bvariant = "same_cols"          # np.broadcast_to(col[:, None], (n, c)): stride 0 along axis 1
+            cols = [list(cols[0]) for _ in range(ncols)]
+        else:
+            bvariant = "const_cols"         # np.broadcast_to(row[None, :], (n, c)): stride 0 along axis 0
+            cols = [[c[0]] * n for c in cols]
+    storage = {"code": code, "order": order, "layout": layout, "bvariant": bvariant,
+               "step0": r.choice([2, 3]), "step1": r.choice([1, 2]), "off_items": r.randint(0, 3),
+               "rev1": r.random() < 0.4, "odd": r.choice([1, 3, 5]), "fill": r.randrange(1 << 30),
+               "readonly": layout == "readonly" or r.random() < 0.12,
+               "subclass": layout == "subclass" or r.random() < 0.12}
+    return {"cols": cols, "kinds": kinds, "n": n, "fraction": gen_fraction(r, n),
+            "dtype": storage_dtype(code, order).str, "container": "ndarray", "storage": storage}
+
+
+def build_storage(cols, st):
+    """The sample as a block of memory + descriptor.  Returns dict(array, raw (bytes of the whole
+    buffer), offset, strides (bytes; 1-D samples have strides (s0,)), dt)."""
+    import random as _random
+    dt = storage_dtype(st["code"], st["order"])
+    z = dt.itemsize
+    n, c = len(cols[0]), len(cols)
+    two_d = c > 1
+    layout = st["layout"]
+    identical = all(col == cols[0] for col in cols)
+    constant = all(len(set(col)) == 1 for col in cols)
+    bv = st.get("bvariant")
+    if layout == "broadcast":       # derived cases (a single column, a shrunk sample) keep what still applies
+        if bv == "same_cols" and not (two_d and identical):
+            layout = "C"
+        elif bv in ("const_cols", "const1d") and not constant:
+            layout = "C"
+        elif bv == "const_cols" and not two_d:
+            bv = "const1d"
+        elif bv == "const1d" and two_d:
+            bv = "const_cols"
+    if layout == "F" and not two_d:
+        layout = "C"
+    off = 0
+    if layout in ("C", "readonly", "subclass", "unaligned"):
+        s0, s1 = c * z, z
+        if layout == "unaligned":
+            off = st["odd"]
+    elif layout == "F":
+        s0, s1 = z, n * z
+    elif layout == "strided":
+        a, b = st["step0"], (st["step1"] if two_d else 1)
+        s1 = b * z
+        s0 = a * c * b * z
+        off = st["off_items"] * z
+    elif layout == "reversed":
+        s0, s1 = -c * z, z
+        off = (n - 1) * c * z
+        if two_d and st["rev1"]:
+            s1 = -z
+            off += (c - 1) * z
+    elif layout == "broadcast":
+        off = st["off_items"] * z
+        if bv == "same_cols":
+            s0, s1 = z, 0
+        else:                       # const_cols / const1d
+            s0, s1 = 0, z
+    else:
+        raise ValueError(layout)
+    # extent of the buffer
+    ends = [off + i * s0 + j * s1 for i in (0, n - 1) for j in (0, c - 1)]
+    assert min(ends) >= 0
+    nbytes = max(ends) + z + _random.Random(st["fill"]).randint(0, 2 * z)
+    g = _random.Random(st["fill"] + 1)
+    buf = bytearray(g.getrandbits(8) for _ in range(nbytes))
+    strides = (s0, s1) if two_d else (s0,)
+    shape = (n, c) if two_d else (n,)
+    isint = dt.kind in "iu"
+    conv = (lambda x: int(x)) if isint else (lambda x: float(x))
+
+    def put(view_shape, view_strides, values):
+        v = np.ndarray(view_shape, dtype=dt, buffer=buf, offset=off, strides=view_strides)
+        v[...] = np.array(values, dtype=(dt.newbyteorder("=") if isint else np.float64))
+
+    if layout == "broadcast" and bv == "same_cols":
+        put((n,), (s0,), [conv(x) for x in cols[0]])
+    elif layout == "broadcast":
+        put((c,), (s1,), [conv(col[0]) for col in cols])
+    elif two_d:
+        put(shape, strides, [[conv(cols[j][i]) for j in range(c)] for i in range(n)])
+    else:
+        put(shape, strides, [conv(x) for x in cols[0]])
+    raw = bytes(buf)
+    arr = np.ndarray(shape, dtype=dt, buffer=(raw if st["readonly"] else buf), offset=off, strides=strides)
+    # the array must hold exactly the intended values (no rounding / wrapping while storing them)
+    back = arr.astype(np.longdouble if dt.kind == "f" else object)
+    for j in range(c):
+        for i in range(n):
+            got = back[i, j] if two_d else back[i]
+            got = Fraction(int(got)) if isint else Fraction(*float(got).as_integer_ratio())
+            assert got == cols[j][i], ("storing the sample changed a value", st, cols[j][i], got)
+    if st["subclass"]:
+        arr = arr.view(Tagged)
+    return {"array": arr, "raw": raw, "buf": (raw if st["readonly"] else buf), "offset": off,
+            "strides": (s0, s1), "dt": dt, "layout": layout}
+
+
+def coq_case_storage(case, L, obs, den):
+    """(buffer, (kind, size, order), (offset, rows, cols, stride0, stride1), k, L, observed)"""
+    b = build_storage(case["cols"], case["storage"])
+    dt = b["dt"]
+    kd = {"i": 0, "u": 1, "f": 2}[dt.kind]
+    big = dt.byteorder == ">" or (dt.byteorder == "=" and not np.little_endian)
+    k = den.bit_length() - 1
+    assert den == 1 << k
+    if kd != 2:
+        assert den == 1
+    n, c = case["n"], len(case["cols"])
+    s0, s1 = b["strides"]
+    os_ = C.clist([f"({C.cz(o[0] * den)}, {C.cz(o[1] * den)})" for o in obs])
+    raw = b["raw"]
+    mem = C.clist([hex(int.from_bytes(raw[i:i + 32], "little")) for i in range(0, len(raw), 32)])
+    return (f"({mem}, ({kd}, {dt.itemsize}, {1 if big else 0}), "
+            f"({C.cz(b['offset'])}, {C.cnat(n)}, {C.cnat(c)}, {C.cz(s0)}, {C.cz(s1)}), {C.cz(k)}, {C.cnat(L)}, {os_})")
+
+
 # ---------------------------------------------------------------- running the code
 def run_impl(case):
     """Returns dict(status, out (list of (lo,hi) Fractions per column), modified)."""
     sample_hdi = impl()
-    x = make_input(case["cols"], case["container"], case["dtype"])
+    built = None
+    if case.get("storage") is not None:
+        built = build_storage(case["cols"], case["storage"])
+        x = built["array"]
+    else:
+        x = make_input(case["cols"], case["container"], case["dtype"])
     before = x.copy() if isinstance(x, np.ndarray) else None
+    desc = (x.shape, x.strides, x.dtype, x.flags.writeable, type(x)) if isinstance(x, np.ndarray) else None
     try:
         with warnings.catch_warnings():
             warnings.simplefilter("ignore")
@@ -152,6 +425,9 @@ def run_impl(case):
     modified = False
     if before is not None:
         modified = (before.shape != x.shape) or not np.array_equal(before, x) or before.dtype != x.dtype
+        modified = modified or desc != (x.shape, x.strides, x.dtype, x.flags.writeable, type(x))
+        if built is not None:       # the whole base buffer, gaps of a strided view included
+            modified = modified or bytes(built["buf"]) != built["raw"]
     out = np.asarray(out, dtype=float)
     ncols = len(case["cols"])
     try:
@@ -237,6 +513,13 @@ def metamorphic(case, res, r):
         want = [(a * lo + b, a * hi + b) for lo, hi in res]
         if o3["status"] != "ok" or o3["out"] != want:
             bad.append(f"not covariant under x -> {a}*x + {b}")
+    # "lists and arrays": the storage format of the sample does not matter
+    if case.get("storage") is not None:
+        isint = np.dtype(case["dtype"]).kind in "iu"
+        o4 = run_impl(dict(case, storage=None, container="list", dtype="int" if isint else "float"))
+        if o4["status"] != "ok" or o4["out"] != res:
+            bad.append(f"the {case['dtype']} array gives {[(str(a), str(b)) for a, b in res]} but the same values as a "
+                       f"list give {[(str(a), str(b)) for a, b in o4.get('out', [])] or o4.get('error')}")
     # each column equals the 1-D call
     if len(case["cols"]) > 1:
         for ci, col in enumerate(case["cols"]):
@@ -263,6 +546,10 @@ def run(rep: C.Report, tier: str) -> int:
     n_cases = 600 if tier == "quick" else 6000
     C.clean_gen(PROP)
     C.prove_and_audit(rep, PROP, THEOREMS)
+    # storage-level model (Model/HdiStorage.v, Properties/C13Storage.v): audited while the cases are generated
+    from concurrent.futures import ThreadPoolExecutor
+    audit_pool = ThreadPoolExecutor(max_workers=1)
+    storage_audit = audit_pool.submit(C.coq_audit, PROP + "_storage", STORAGE_THEOREMS, "IT.Properties.C13Storage")
 
     cases, results = [], []
     for k in range(n_cases):
@@ -283,9 +570,59 @@ def run(rep: C.Report, tier: str) -> int:
                         "container": case["container"], "dtype": case["dtype"],
                         "impl_output": out.get("out")})
 
+    # the same kind of samples in every storage format: each (dtype, byte order, layout) combination
+    # occurs at least once per run, the rest is drawn at random
+    rst = C.rng_for(PROP, "storage")
+    combos = storage_combos()
+    reps = 1 if tier == "quick" else 8
+    plan = [cb for _ in range(reps) for cb in combos]
+    plan += [rst.choice(combos) for _ in range(64 if tier == "quick" else 640)]
+    rst.shuffle(plan)
+    for k, combo in enumerate(plan):
+        case = gen_storage_case(rst, tier, combo)
+        try:
+            out = run_impl(case)
+        except AssertionError as e:      # the harness could not even store the sample: a bug of the check
+            rep.violation("C13/harness", f"storage case could not be built: {e}", {"case": describe(case)}, False)
+            continue
+        cases.append(case)
+        results.append(out)
+        st = case["storage"]
+        rep.count(f"n<={10 ** len(str(case['n']))}")
+        rep.count("cols=" + str(len(case["cols"])))
+        rep.count("container=ndarray/" + case["dtype"])
+        rep.count("storage-layout=" + st["layout"] + ("/" + st["bvariant"] if st["bvariant"] else ""))
+        rep.count("storage-byteorder=" + st["order"])
+        if st["readonly"]:
+            rep.count("storage-readonly")
+        if st["subclass"]:
+            rep.count("storage-subclass")
+        for kd in case["kinds"]:
+            rep.count("storage-kind=" + kd)
+        rep.case((case["cols"], case["fraction"], "storage", case["dtype"], sorted(st.items(), key=str)),
+                 nontrivial=len(set(case["cols"][0])) > 1)
+        if k < 2:
+            b = build_storage(case["cols"], st)
+            rep.sample({"sample_columns": [[float(x) for x in c[:12]] for c in case["cols"]],
+                        "n": case["n"], "fraction": case["fraction"], "dtype": case["dtype"],
+                        "layout": b["layout"], "offset": b["offset"], "strides": list(b["array"].strides),
+                        "writeable": bool(b["array"].flags.writeable), "type": type(b["array"]).__name__,
+                        "impl_output": out.get("out")})
+
+    try:
+        info = storage_audit.result()
+        rep.obligation(True, len(STORAGE_THEOREMS))
+        rep.coverage["storage_audit"] = info
+    except C.ProofFailure as e:
+        rep.obligation(False, len(STORAGE_THEOREMS))
+        rep.violation("C13/proof", f"proof obligation no longer checks: {e.what}",
+                      {"theorem_or_correspondence": e.what, "log": e.log[-1500:]}, False)
+    audit_pool.shutdown()
+
     # Python-side exact facts (inputs of the model / not expressible in it)
     suspicious = []     # indices that need the failing-input search
     one_d, two_d = [], []   # (case index, coq text)
+    stor = []               # storage cases: decoded from the bytes inside Coq
     for k, (case, out) in enumerate(zip(cases, results)):
         L, exact = code_L(case)
         if not (exact <= L <= exact + 1):
@@ -302,16 +639,17 @@ def run(rep: C.Report, tier: str) -> int:
         if any((v * den).denominator != 1 for o in out["out"] for v in o):
             suspicious.append(k)     # output is not even on the sample's dyadic grid
             continue
-        if len(case["cols"]) == 1:
+        if case.get("storage") is not None and case["storage"]["code"] != "g":
+            stor.append((k, coq_case_storage(case, L, out["out"], den)))
+        elif len(case["cols"]) == 1:
             one_d.append((k, coq_case_1d(case["cols"][0], L, out["out"][0], den)))
         else:
             two_d.append((k, coq_case_2d(case["cols"], L, out["out"], den)))
 
     # correspondence inside Coq
     files, index = [], []
-    CH = 150
-    for kind, lst, typ, chk in (("oned", one_d, "list (list Z * nat * (Z * Z))", "check_case"),
-                                ("twod", two_d, "list (list (list Z) * nat * list (Z * Z))", "check_case2")):
+    for kind, lst, typ, chk, CH in (("oned", one_d, "list (list Z * nat * (Z * Z))", "check_case", 150),
+                                    ("twod", two_d, "list (list (list Z) * nat * list (Z * Z))", "check_case2", 60)):
         for i in range(0, len(lst), CH):
             chunk = lst[i:i + CH]
             body = "Definition cases : " + typ + " :=\n " + C.clist([t for _, t in chunk], ";\n ") + "."
@@ -319,9 +657,24 @@ def run(rep: C.Report, tier: str) -> int:
                                   [f"failing {chk} cases 0"])
             files.append(p)
             index.append([k for k, _ in chunk])
+    n_plain_files = len(files)
+    CHS = 40
+    for i in range(0, len(stor), CHS):
+        chunk = stor[i:i + CHS]
+        body = "Definition cases : list storage_case :=\n " + C.clist([t for _, t in chunk], ";\n ") + "."
+        p = C.write_case_file(PROP, f"cases_storage_{i // CHS}", HEADER_STORAGE, body,
+                              ["failing check_storage cases 0", "failing check_storage_native cases 0",
+                               "failing check_storage_pinned cases 0"])
+        files.append(p)
+        index.append([k for k, _ in chunk])
     outs = C.run_case_files(files, jobs=12)
     n_checked = 0
-    for p, idx, (ok, res, log) in zip(files, index, outs):
+    native_like = set()     # disagreeing storage cases that the model WITHOUT the widening reproduces
+    pinned_like = set()     # ... that the model with signed int64 widths (the code before D53) reproduces
+    for fi, (p, idx, (ok, res, log)) in enumerate(zip(files, index, outs)):
+        if fi >= n_plain_files and ok and 0 in res and 1 in res and 2 in res:
+            native_like.update(idx[j] for j in res[0] if j not in res[1])
+            pinned_like.update(idx[j] for j in res[0] if j not in res[2])
         if not ok or 0 not in res:
             rep.obligation(False)
             rep.violation("C13/correspondence-run", f"case file {p.name} did not evaluate",
@@ -347,12 +700,27 @@ def run(rep: C.Report, tier: str) -> int:
             small = shrink(case, rs)
             so = run_impl(small)
             sbad = oracle(small, so["out"]) if so["status"] == "ok" else [so.get("error")]
-            rep.violation("C13/property", "; ".join((sbad or bad)[:3]),
+            what = "; ".join((sbad or bad)[:3])
+            if case.get("storage") is not None:
+                b = build_storage(case["cols"], case["storage"])
+                what += (f" [sample stored as {case['dtype']} {type(b['array']).__name__}, layout {b['layout']}, "
+                         f"strides {b['array'].strides}, writeable={b['array'].flags.writeable}")
+                if k in pinned_like:
+                    what += ("; the output is what Model.HdiStorage gives with the int64 widths compared as signed "
+                             "numbers (arith_pinned, cf. C13_pinned_int64_span_refuted, defect D53): a width of 2^63 "
+                             "or more wrapped around")
+                elif k in native_like:
+                    what += ("; the output is what Model.HdiStorage gives with the widths computed in the sample's "
+                             "own integer type (arith_native, cf. C13_native_arithmetic_refuted): the widening to "
+                             "int64 did not happen for this storage format")
+                what += "]"
+            rep.violation("C13/property", what,
                           {"case": describe(small if sbad else case), "impl_output": so.get("out")}, True)
         else:
             rep.violation("C13/correspondence",
                           "implementation and model disagree, but the property was not seen to fail on this input",
-                          {"theorem_or_correspondence": "Model.Hdi.check_case (correspondence with sample_hdi)",
+                          {"theorem_or_correspondence": ("Model.HdiStorage.check_storage" if case.get("storage") is not None
+                                                         else "Model.Hdi.check_case") + " (correspondence with sample_hdi)",
                            "case": describe(case), "impl_output": out["out"]}, False)
 
     # the property oracle also runs on a slice of agreeing cases (cheap second opinion, [R])
@@ -366,6 +734,12 @@ def run(rep: C.Report, tier: str) -> int:
         "L = int(fraction*n) is an input of the model; floor(fraction*n) <= L is checked exactly per case",
         "NumPy sort / argmin / take_along_axis semantics are modelled (mergesort, first minimum)",
         "samples are dyadic rationals scaled to integers; covariance under scaling is theorem C13_affine",
+        "storage cases: the items are decoded from the raw buffer inside Coq (two's complement; IEEE-754 binary16/32/64 "
+        "through Flocq's binary_float_of_bits_aux); float samples are generated so that every pairwise difference is "
+        "representable in the sample's own float type (the model's widths are exact); 64-bit integer samples are either "
+        "within +-2^53 or multiples of 2^11 over the whole range of the type, so that the float64 result array holds the "
+        "end points exactly (an int64 sample may span 2^63 or more: defect D53)",
+        "numpy.longdouble samples (no interchange format) are converted by the harness and checked against Model.Hdi",
     ]
     return rep.finish(
         level="proof",
@@ -374,13 +748,17 @@ def run(rep: C.Report, tier: str) -> int:
         rule="random samples (ties / ints / dyadic / outliers / bimodal / constant; n 2..300(800); 1-4 columns; "
              "ndarray, list, tuple; int and float dtype) x fractions (uniform, within a few ulp of k/n, exact "
              "ratios, extremes); a case is non-trivial when its first column has at least two distinct values; "
-             "distinct = distinct (columns, fraction, container, dtype)")
+             "distinct = distinct (columns, fraction, container, dtype); plus storage cases: every combination of "
+             "{int8..int64, uint8..uint64, float16/32/64, longdouble} x {little, big endian} x {C, Fortran, strided, "
+             "reversed, 0-stride broadcast, read-only, unaligned, ndarray subclass} at least once (8x in the thorough tier) "
+             "+ 64 (640) random combinations; integer values over the whole range of the type, 64-bit types included (full "
+             "range, cluster + both ends, two ends, ties, small); n 2..90(150); 1-4 columns")
 
 
 def describe(case):
     return {"columns": [[str(x) for x in c] for c in case["cols"]], "fraction": case["fraction"],
             "fraction_hex": float(case["fraction"]).hex(), "container": case["container"],
-            "dtype": case["dtype"]}
+            "dtype": case["dtype"], "storage": case.get("storage")}
 
 
 def fails_property(case):
@@ -415,11 +793,18 @@ def replay(path):
     c = rp["case"]
     cols = [[Fraction(x) for x in col] for col in c["columns"]]
     case = {"cols": cols, "n": len(cols[0]), "fraction": float.fromhex(c["fraction_hex"]),
-            "container": c["container"], "dtype": c["dtype"], "kinds": []}
+            "container": c["container"], "dtype": c["dtype"], "kinds": [], "storage": c.get("storage")}
+    if case["storage"] is not None:
+        b = build_storage(cols, case["storage"])
+        a = b["array"]
+        print(f"sample: {type(a).__name__} dtype={a.dtype.str} shape={a.shape} strides={a.strides} "
+              f"offset={b['offset']} writeable={a.flags.writeable} aligned={a.flags.aligned}")
     out = run_impl(case)
     print("implementation returns:", out)
     if out["status"] != "ok":
         return 1
     bad = oracle(case, out["out"])
+    if case["storage"] is not None and not bad:
+        bad = [m for m in metamorphic(case, out["out"], C.rng_for(PROP, "replay")) if "as a list" in m]
     print("property failures:", bad)
     return 1 if bad else 0
